@@ -135,9 +135,37 @@ def trace_equivalence(rec, hub, seed):
                                    "lines_traced_example": len(traces["tagged"])})
 
 
+def big_cases(rec, hub, rng, n_cases):
+    """large operands (10^4 - 10^6 entries) judged by a vectorised reference without einsum"""
+    from ..oracles import big
+
+    fd = hub.fd
+    pairs = [("abc", "abc"), ("abc", "cab"), ("abc", "bc"), ("ab", "bcd"), ("cba", "ad"), ("abcd", "db"), ("b", "ab"), ("abc", "")]
+    for k in range(n_cases):
+        U = gen.big_universe(fd, rng)
+        la, lb = pairs[int(rng.integers(0, len(pairs)))]
+        reg = "dyadic" if rng.random() < 0.5 else "real"
+        vx = gen.relayout(gen.big_values(rng, gen.shape_of(U, la), reg), rng)
+        vy = gen.big_values(rng, gen.shape_of(U, lb), reg)
+        for kind, f in BINOPS:
+            if kind == "pow":
+                continue
+            vy2 = np.where(vy == 0, 1.0, vy) if kind == "div" else vy
+            x = fd.FlodymArray(dims=gen.dimset(fd, U, tuple(la)), values=vx.copy(order="K"))
+            y = fd.FlodymArray(dims=gen.dimset(fd, U, tuple(lb)), values=vy2.copy())
+            try:
+                r, e = f(x, y), None
+            except Exception as ex:
+                r, e = None, ex
+            big.judge_binary(rec, fd, kind, x, y, r, e)
+
+
 def run(rec, hub, tier, seed, shard, nshards, budget):
     fd = hub.fd
     arith.register(hub)
+    rec.require("large-arrays", 5)
+    rec.set_case(driver="c01.big", seed=seed, tier=tier, shard=shard, nshards=nshards, idx=shard)
+    big_cases(rec, hub, case_nprng(seed, "c01.big", shard, 0), 3 if tier == "quick" else 6)
     if shard == 0:
         trace_equivalence(rec, hub, seed)
     if tier == "quick":
@@ -191,6 +219,10 @@ def replay(rec, hub, case):
     fd = hub.fd
     arith.register(hub)
     tier = case.get("tier", "quick")
+    if case["driver"] == "c01.big":
+        rec.set_case(**case)
+        big_cases(rec, hub, case_nprng(case["seed"], "c01.big", case.get("shard", 0), 0), 3 if tier == "quick" else 6)
+        return
     letters, patterns = ("abc", gen.LENGTH_PATTERNS[3]) if tier == "quick" else ("abcd", gen.LENGTH_PATTERNS[4])
     pat = case["pattern"]
     U = gen.universe(fd, dict(zip(letters, patterns[pat])), rng=case_nprng(case["seed"], "c01.universe", 0, f"{case['idx']}.{pat}") if case["driver"] == "c01.pair" else None)
